@@ -21,8 +21,30 @@ def text(cp) -> str:
 NO_ATTRS = {
     "path_set": False, "path": [], "dom_set": False, "domain": [], "ma_kind": "none", "ma_neg": False, "ma_digits": [0],
     "exp_kind": "none", "exp_days": 0, "exp_secs": 0, "exp_text": [], "sync": False, "secure": False, "httponly": False,
-    "ss_set": False, "samesite": [], "partitioned": False,
+    "ss_set": False, "samesite": [], "partitioned": False, "idna": [],
 }
+
+
+def idna_log(domain: str):
+    """trusted input for the judge: the IDNA codec applied to every non-ASCII label of the BARE host (no port, no leading dots),
+    label by label -- never to the domain argument as a whole"""
+    host = domain.partition(":")[0].lstrip(".")
+    out = []
+    for lab in host.split("."):
+        if lab and not lab.isascii() and not any(cps(lab) == p[0] for p in out):
+            out.append([cps(lab), cps(lab.encode("idna").decode("ascii"))])
+    return out
+
+
+def with_idna(a):
+    a = dict(a)
+    a.setdefault("idna", [])
+    if a["dom_set"] and not a["idna"]:
+        try:
+            a["idna"] = idna_log(text(a["domain"]))
+        except UnicodeError:
+            a["idna"] = []
+    return a
 
 
 def attrs(**kw):
@@ -82,10 +104,18 @@ def run_dump(case):
     from werkzeug.sansio import http as sansio_http
 
     key, value, x = text(case["key"]), text(case["value"]), case.get("x", {})
-    a = dict(case["a"])
+    a = with_idna(case["a"])
     via = x.get("via", "dump_cookie")
-    if via == "response":
+    if via in ("response", "response-delete"):
         a["sync"] = True  # Response.set_cookie has no sync_expires switch
+    if via == "response-delete":  # Response.delete_cookie = set_cookie(key, expires=0, max_age=0, ...) with an empty value
+        value, case = "", dict(case, value=[])
+        a.update(ma_kind="int", ma_neg=False, ma_digits=[0], exp_kind="ts", exp_days=0, exp_secs=0)
+    if via == "client":  # Client.set_cookie: domain defaults to "localhost", path to "/"
+        if not a["dom_set"]:
+            a.update(dom_set=True, domain=cps("localhost"))
+        if not a["path_set"]:
+            a.update(path_set=True, path=cps("/"))
     line = {"op": "dump", "flow": via, "key": case["key"], "value": case["value"], "a": a, "exc": "", "hdr": [],
             "full": [], "req": [], "ps": [], "pe": [], "perr": ""}
     line["t0d"], line["t0s"] = _clock()
@@ -93,13 +123,33 @@ def run_dump(case):
     try:
         with warnings.catch_warnings():
             warnings.simplefilter("ignore")
-            if via == "response":
+            if via in ("response", "response-delete"):
                 from werkzeug.wrappers import Response
 
                 resp = Response()
                 resp.max_cookie_size = 0
-                resp.set_cookie(key, value, **call_kwargs(a, x, for_response=True))
+                kw = call_kwargs(a, x, for_response=True)
+                if via == "response":
+                    resp.set_cookie(key, value, **kw)
+                else:
+                    resp.delete_cookie(key, **{k: v for k, v in kw.items() if k in ("path", "domain", "secure", "httponly", "samesite", "partitioned")})
                 hdr = resp.headers.getlist("Set-Cookie")[0]
+            elif via == "client":
+                import werkzeug.test as wtest
+
+                seen, orig = [], wtest.dump_cookie
+
+                def recording(*args, **kwargs):  # the header Client.set_cookie hands to its jar
+                    seen.append(orig(*args, **kwargs))
+                    return seen[-1]
+
+                kw = call_kwargs(a, x)
+                wtest.dump_cookie = recording
+                try:
+                    wtest.Client(lambda e, s: None).set_cookie(key, value, domain=kw.pop("domain"), path=kw.pop("path"), max_size=0, **kw)
+                finally:
+                    wtest.dump_cookie = orig
+                hdr = seen[0]
             else:
                 hdr = http.dump_cookie(key, value, max_size=0, **call_kwargs(a, x))
     except Exception as e:
@@ -138,7 +188,7 @@ def run_jar(case):
     import warnings
 
     key, value, x = text(case["key"]), text(case["value"]), case.get("x", {})
-    a = dict(case["a"])
+    a = with_idna(case["a"])
     a["sync"] = True
     host = x.get("jar_host") or "localhost"
     path = text(a["path"]) if a["path_set"] else "/"
@@ -559,8 +609,12 @@ def attrs_from_call(b):
         if not isinstance(domain, str) or domain == "":
             return a, "domain empty or not text"
         host = domain.partition(":")[0].lstrip(".")
-        if any((not lab.isascii()) and lab not in IDNA_KNOWN for lab in host.split(".")) or any(c in host for c in ";, \t\r\n"):
-            return a, "domain outside the IDNA table / not a host name"
+        if any(c in host for c in ";, \t\r\n\u3002\uff0e\uff61") or any(lab == "" for lab in host.split(".")):
+            return a, "domain not a host name"
+        try:
+            a["idna"] = idna_log(domain)
+        except UnicodeError:
+            return a, "domain label the IDNA codec rejects"
         a["dom_set"], a["domain"] = True, cps(domain)
     ma = b.get("max_age")
     if ma is not None:
@@ -675,3 +729,71 @@ def jar_cookie_rec(ck, base):
     ma = ABSENT if ck.max_age is None else max(min(ck.max_age, JAR_CLAMP), -JAR_CLAMP)
     return {"dom": cps(ck.domain), "path": cps(ck.path), "name": cps(ck.decoded_key), "val": cps(ck.decoded_value), "ho": bool(ck.origin_only),
             "secure": bool(ck.secure), "httponly": bool(ck.http_only), "ss": cps(ck.same_site or ""), "ma": ma, "exp": exp}
+
+
+# ====================================================================== attribute grammar products (Domain, Path)
+DOM_ASCII = ["example", "com", "sub", "a-1", "localhost"]
+DOM_MIXED = ["ExAmple", "COM", "Sub", "LocalHost"]
+DOM_NONASCII = ["b\xfccher", "\u4f8b\u3048", "\u043f\u0440\u0438\u043c\u0435\u0440", "\u2603", "B\xdcCHER", "m\xfcnchen"]   # first / inner labels
+DOM_IDN_TLD = ["\u30c6\u30b9\u30c8", "\u0440\u0444", "\u4e2d\u56fd", "\u0939\u093f\u0928\u094d\u0926\u0940"]                  # last label (IDN TLDs)
+DOM_FLOWS = ["dump_cookie", "response", "response-delete", "client"]
+
+
+def domain_product(thorough=False):
+    """domain arguments as a product of independent features: leading dot x port x number of labels (1-3) x script pattern
+    (ASCII / non-ASCII first label / non-ASCII last label = IDN TLD / all non-ASCII / mixed-case ASCII) x call path."""
+    cases, n = [], 0
+    for nlab in (1, 2, 3):
+        for pattern in ("ascii", "first", "last", "all", "mixed"):
+            variants = range(len(DOM_NONASCII) if thorough else 2)
+            for v in variants:
+                labs = []
+                for i in range(nlab):
+                    last, first = i == nlab - 1, i == 0
+                    non = pattern == "all" or (pattern == "first" and first) or (pattern == "last" and last)
+                    if non:
+                        pool = DOM_IDN_TLD if (last and nlab > 1) else DOM_NONASCII
+                    else:
+                        pool = DOM_MIXED if pattern == "mixed" else DOM_ASCII
+                    labs.append(pool[(v + i + n) % len(pool)])
+                host = ".".join(labs)
+                for dot in ("", ".", "..") if thorough else ("", "."):
+                    for port in ("", ":80", ":8443"):
+                        for flow in DOM_FLOWS:
+                            n += 1
+                            a = attrs(dom_set=True, domain=cps(dot + host + port), path_set=True, path=cps("/"), idna=idna_log(host))
+                            if n % 3 == 0:
+                                a.update(secure=True, httponly=True)
+                            if n % 4 == 0:
+                                a.update(ss_set=True, samesite=cps("lax"))
+                            cases.append({"key": cps("k"), "value": cps("v;" if n % 5 == 0 else "v"), "a": a, "x": {"via": flow}})
+                if pattern in ("ascii", "mixed") and v >= 1:
+                    break
+    return cases
+
+
+PATH_FEATURES = {"nonascii": "\xe9\u4f8b", "space": "a b", "semi": "x;y", "pct": "100%", "pctenc": "%41%3b", "ctl": "t\tn\n", "astral": "\U0001f600",
+                 "sep": "q?r#s", "safe": "!$&'()*+,:=@", "quote": '"\\'}
+
+
+def path_product(thorough=False):
+    """path arguments as a product of independent features spread over 1-3 segments x call path"""
+    import itertools
+
+    names = sorted(PATH_FEATURES)
+    combos = [c for r in (1, 2, 3) for c in itertools.combinations(names, r)] if thorough else \
+             [c for r in (1, 2) for c in itertools.combinations(names, r)] + [tuple(names[i:i + 3]) for i in range(len(names) - 2)]
+    cases, n = [], 0
+    for combo in combos:
+        for nseg in (1, 2, 3):
+            segs = ["" for _ in range(nseg)]
+            for i, f in enumerate(combo):
+                segs[i % nseg] += PATH_FEATURES[f]
+            path = "/" + "/".join(sg or "p" for sg in segs) + ("/" if n % 4 == 0 else "")
+            for flow in ("dump_cookie", "response", "client") if thorough else (("dump_cookie", "response", "client")[n % 3],):
+                a = attrs(path_set=True, path=cps(path))
+                if n % 2:
+                    a.update(dom_set=True, domain=cps("example.com"))
+                cases.append({"key": cps("k"), "value": cps("v"), "a": a, "x": {"via": flow}})
+            n += 1
+    return cases
